@@ -135,6 +135,9 @@ func c08Septets(c *fw.Case, s []byte, class string) {
 	if (len(inval) == 0) != (e1 == nil) {
 		c.Failf("entrypoints-disagree/validate-buffer", "ValidateGSM7Buffer(%s)=%s but Decode error=%v", hx(s), hx(inval), e1)
 	}
+	if len(s) > 2 {
+		c.Sample(2, map[string]any{"septets": hx(s), "packed": hx(packed), "unpacked": hx(un), "text": text, "decodable": decodable})
+	}
 	c.Cover("septets/" + class)
 }
 
@@ -351,7 +354,7 @@ func init() {
 				},
 			},
 			{
-				Name: "random", N: q(60000, 3000000),
+				Name: "random", N: q(300000, 6000000),
 				Run: func(c *fw.Case) {
 					n := c.R.Range(0, 200)
 					if c.R.Chance(1, 10) {
